@@ -16,8 +16,16 @@ SY = {0: '.', 1: '', 2: '=', 3: '#', 4: '$'}
 # G-LEVELS
 # ----------------------------------------------------------------------------------------
 def write_cg_fragment(R, sub, names, desc):
-    tokens = {n: '[#%s]' % names[n] + ''.join(desc.get(n, [])) for n in sub.nodes}
-    return molgen.write_base(R, sub, names, tokens=tokens)[1:-1]
+    tokens, late = {}, {}
+    for n in sub.nodes:
+        ds = list(desc.get(n, []))
+        R.shuffle(ds)
+        k = R.randint(0, len(ds)) if (ds and R.chance(0.4)) else len(ds)
+        tokens[n] = '[#%s]' % names[n] + ''.join(ds[:k])
+        # a descriptor that starts with a bond symbol cannot follow a closing brace unambiguously
+        # ('...)=[$a]' is fine for the reader: the symbol is taken by the descriptor)
+        late[n] = ''.join(ds[k:])
+    return molgen.write_base(R, sub, names, tokens=tokens, late_tokens=late)[1:-1]
 
 
 def group_level(R, base, names, prefix, labels, kinds=('$', '><'), p_share=0.0):
@@ -150,8 +158,8 @@ def gen_fragset(R, names, all_atom, squash=True):
     defs = {}
     for nm in names:
         if all_atom:
-            m = molgen.gen_mol(R, max_heavy=R.choice([1, 3, 5]), p_arom=0.0, p_charge=0.15, p_multi=0.25,
-                               p_ring=0.3, hyper=False)
+            m = molgen.gen_mol(R, max_heavy=R.choice([1, 3, 5]), p_arom=R.choice([0.0, 0.0, 0.6]), p_charge=0.15,
+                               p_multi=0.25, p_ring=0.3, hyper=False)
             atoms = list(range(len(m.atoms)))
         else:
             m = molgen.Mol()
@@ -171,6 +179,13 @@ def gen_fragset(R, names, all_atom, squash=True):
             # and never together with another descriptor on the same atom: two descriptor pairs between
             # the same two atoms (one of them '!') have no defined meaning (one graph edge cannot hold both)
             if any(x.endswith('!]') or '[!' in x for x in d[a]):
+                continue
+            if m.atoms[a]['aromatic']:
+                # an aromatic atom takes at most one single-order ordinary descriptor: whether it is
+                # used or left over, the ring can always be kekulised
+                if d[a]:
+                    continue
+                d[a].append('[%s%s]' % (R.choice(['$', '$', '>', '<']), R.choice(DESC_LABELS)))
                 continue
             ok_sq = squash and not d[a] and m.atoms[a]['element'] == 'C' and not m.atoms[a]['charge'] and \
                 all(m.order(a, x) == 1 for x in m.nbrs(a))
@@ -257,12 +272,16 @@ def gen_cut_string(R, tier, min_frags=1, with_levels=0, classes=None, weights=Fa
     annot = None
     if weights:
         annot = {i: R.choice(['0.5', '2', 'w=0.25', '0', 'foo=bar', '3;foo=x']) for i in range(len(m.atoms)) if R.chance(0.35)}
+    mr = m
+    if m.arom_rings and not shared_atoms and R.chance(0.2):
+        mr = molgen.kekulized(R, m)
+        feats.add('kekule_rendering')
     if shared_atoms:
         s, info = molgen.build_shared(R, m, owner, share=R.choice([0.4, 0.8]), style=molgen.style_draw(R), feats=feats)
         if s is not None and info['nshared']:
             feats.add('shared_atoms_at_atomistic_level')
     else:
-        s, info = molgen.build_cgsmiles(R, m, owner, style=molgen.style_draw(R), feats=feats, annot=annot or None)
+        s, info = molgen.build_cgsmiles(R, mr, owner, style=molgen.style_draw(R), feats=feats, annot=annot or None)
     if s is None:
         return None
     nfr = info['nfr']
